@@ -735,3 +735,216 @@ def sections(ctx, *fns):
             ctx.ob("anchor", "%s: %s" % (fn.__name__.strip("_"), str(e)[:100]), False, msg="fail closed: " + str(e), nontrivial=False)
         except Exception:
             ctx.ob("anchor", "%s: code shape not understood" % fn.__name__.strip("_"), False, msg="fail closed: " + traceback.format_exc()[-1200:], nontrivial=False)
+
+
+# ---------------------------------------------------------------------------- round 2: helper extraction + private-name independence
+def local_callees(prog, body):
+    """(site, callee body) for every call in `body` that resolves to a function/method of the same crate."""
+    by = getattr(prog, "_by_npath_" + body.crate, None)
+    if by is None:
+        by = {}
+        for b in prog.bodies(body.crate):
+            by.setdefault(b.npath, b)
+        setattr(prog, "_by_npath_" + body.crate, by)
+    out = []
+    for s in body.call_sites():
+        h = by.get(strip_generics(body.call_name(s.term)))
+        if h is not None and h is not body:
+            out.append((s, h))
+    return out
+
+
+def rename_fn(prog, crate, actual, canon):
+    """Make the private function whose (generic-stripped) path is `actual` known to all rules as `canon` — in the
+    loaded facts of this process only.  Used after a *role-based* lookup so that no rule depends on a private name."""
+    if actual == canon:
+        return
+    for b in prog.bodies(crate):
+        if b.npath == actual or b.npath.startswith(actual + "::"):
+            b.npath = canon + b.npath[len(actual):]
+            b.short = b.npath.split("::", 1)[-1]
+        for blk in b.blocks:
+            t = blk["term"]
+            if t and t["k"] == "call":
+                for key in ("res", "fn"):
+                    if key in t and strip_generics(t[key]) == actual:
+                        t[key] = canon
+        b._expr_cache.clear()
+    if hasattr(prog, "_by_npath_" + crate):
+        delattr(prog, "_by_npath_" + crate)
+
+
+def by_role(prog, crate, canon, candidates, what=""):
+    """`candidates`: bodies that play the role.  If exactly one distinct body plays it, it is (re)named `canon`.
+    A failed/ambiguous lookup leaves everything as it is (the name-based anchor then decides, fail closed)."""
+    uniq = []
+    for b in candidates:
+        if b is not None and b not in uniq:
+            uniq.append(b)
+    if len(uniq) == 1:
+        rename_fn(prog, crate, uniq[0].npath, canon)
+        return uniq[0]
+    return None
+
+
+def inline_view(prog, body, only_private=True, exclude=r"::io::Multiplexed::(%s)$|::SubstreamState::|::stream::state::State::|::stream::io_poll_next$"):
+    """Crate-local helpers called from `body` at exactly one site, prepared so that their expressions read as if the helper
+    were still inlined: the helper's parameters are rendered as the caller's actual argument expressions.
+    Returns list of (call site in body, helper body)."""
+    seen = {}
+    for s, h in local_callees(prog, body):
+        seen.setdefault(h.npath, []).append((s, h))
+    out = []
+    for lst in seen.values():
+        if len(lst) != 1:
+            continue
+        s, h = lst[0]
+        if only_private and not str(h.vis).startswith("in:"):
+            continue          # pub / pub(crate) items are API, not extracted blocks
+        if exclude and re.search(exclude % "|".join(IO_ARGS) if "%s" in exclude else exclude, h.npath):
+            continue          # functions that rules anchor on keep their own canonical parameter names
+        if len(prog.callers(body.crate, "^" + re.escape(h.npath) + "$")) != 1:
+            continue          # only helpers with a single call site in the crate read as "an extracted block"
+        args = body.site_expr(s)[2]
+        if len(args) != h.argc:
+            continue
+        canon_args(h, [render(a) for a in args])
+        out.append((s, h))
+    return out
+
+
+def scoped_sites(prog, body, pat, helpers=None):
+    """Call sites matching `pat` in `body` and, one level down, in its single-use private helpers:
+    list of (site, owner body, via) with via = the call site in `body` through which the owner is reached (None for body)."""
+    helpers = inline_view(prog, body) if helpers is None else helpers
+    out = [(s, body, None) for s in body.call_sites(pat)]
+    for via, h in helpers:
+        out += [(s, h, via) for s in h.call_sites(pat)]
+    return out
+
+
+def scoped_dominated(body, found, edges_of):
+    """`found` = (site, owner, via): every path to the site passes an edge of edges_of(owner) inside the owner, or (helper) every
+    path to the helper's call passes an edge of edges_of(body)."""
+    s, owner, via = found
+    e = edges_of(owner)
+    if e and owner.must_pass_edges(s.bb, e):
+        return True
+    if via is not None:
+        e2 = edges_of(body)
+        return bool(e2) and body.must_pass_edges(via.bb, e2)
+    return False
+
+
+# ---------------------------------------------------------------------------- role-based identification of private functions
+def _find(prog, crate, pat):
+    hits = prog.find(crate, pat)
+    return hits[0] if len(hits) == 1 else None
+
+
+def _is_switch_cond(body, site):
+    for bi in body.live:
+        info = body.switch_info(bi)
+        if info:
+            c = info[0]
+            while c[0] == "un" and c[1] == "Not":
+                c = c[2]
+            if c[0] == "call" and c[3] == site.bb:
+                return True
+    return False
+
+
+def canon_roles(prog, crate):
+    """Identify the *private* helper functions the rules talk about by the role they play (who calls them, with what, what
+    they do) and make them known under their canonical names, so that renaming a private fn never matters.  Every
+    lookup is fail-soft: if a role cannot be resolved unambiguously nothing is renamed and the name-based anchor decides."""
+    if getattr(prog, "_roles_" + crate, False):
+        return
+    setattr(prog, "_roles_" + crate, True)
+    try:
+        {"libp2p_mplex": _roles_mplex, "libp2p_yamux": _roles_yamux, "libp2p_mdns": _roles_mdns, "libp2p_webrtc_utils": _roles_webrtc}.get(crate, lambda p: None)(prog)
+    except Exception:
+        pass
+
+
+def _roles_yamux(prog):
+    c = "libp2p_yamux"
+    by_role(prog, c, "libp2p_yamux::Muxer::poll_inner", [b for b in prog.bodies(c) if b.kind != "closure" and b.call_sites(r"yamux::Connection::poll_next_inbound$")])
+
+
+def _roles_webrtc(prog):
+    c = "libp2p_webrtc_utils"
+    pr = _find(prog, c, r"^libp2p_webrtc_utils::<stream::Stream as futures::AsyncRead>::poll_read$")
+    if pr is None:
+        return
+    cands = [h for s, h in local_callees(prog, pr) if "::state::State::" not in h.npath and pr.site_expr(s)[2] and norm_self(render(pr.site_expr(s)[2][0])).endswith(".io")]
+    by_role(prog, c, "libp2p_webrtc_utils::stream::io_poll_next", cands)
+
+
+def _roles_mdns(prog):
+    c = "libp2p_mdns"
+    D = "libp2p_mdns::behaviour::iface::dns::"
+    bq = _find(prog, c, r"iface::dns::build_query_response$")
+    if bq is None:
+        return
+    lc = local_callees(prog, bq)
+    by_role(prog, c, D + "append_txt_record", [h for s, h in lc if h.argc == 4 and result_edges(bq, s, {"Ok"})])
+    pushed = [render(bq.site_expr(p)[2][1]) for p in bq.call_sites(r"Vec::push$")]
+    by_role(prog, c, D + "query_response_packet", [h for s, h in local_callees(prog, bq) if any(render(bq.site_expr(s)) == x for x in pushed)])
+    by_role(prog, c, D + "generate_peer_name", [h for s, h in local_callees(prog, bq) if h.argc == 0])
+    tr = _find(prog, c, r"iface::dns::append_txt_record$")
+    if tr is not None:
+        by_role(prog, c, D + "append_character_string", [h for s, h in local_callees(prog, tr) if h.argc == 2 and ok_edges(tr, s)])
+        for h in {h.npath: h for s, h in local_callees(prog, tr) if h.argc == 2 and not h.call_sites(r"iface::dns::")}.values():
+            n = len(h.call_sites(r"Vec::push$"))
+            if n in (2, 4) and len(h.call_sites()) == n:
+                rename_fn(prog, c, h.npath, D + ("append_u32" if n == 4 else "append_u16"))
+    gp = _find(prog, c, r"iface::dns::generate_peer_name$")
+    if gp is not None:
+        by_role(prog, c, D + "random_string", [h for s, h in local_callees(prog, gp) if h.argc == 1])
+        by_role(prog, c, D + "append_qname", [h for s, h in local_callees(prog, gp) if h.argc == 2])
+
+
+def _roles_mplex(prog):
+    c = "libp2p_mplex"
+    P = "libp2p_mplex::io::Multiplexed::"
+    pns = _find(prog, c, r"^libp2p_mplex::io::Multiplexed::poll_next_stream$")
+    if pns is not None:
+        for bi in sorted(pns.live):
+            info = pns.switch_info(bi)
+            if info and info[0][0] == "discr" and {l for ls in info[1].values() for l in ls} == {"Open", "Data", "Close", "Reset"}:
+                core = _core_call(info[0])
+                if core is None:
+                    continue
+                hd = core[3]
+                by_role(prog, c, P + "poll_read_frame", [h for s, h in local_callees(prog, pns) if s.bb == hd])
+                arms = {l: t for t, ls in info[1].items() for l in ls}
+                for v, role in (("Data", "buffer"), ("Close", "on_close"), ("Reset", "on_reset"), ("Open", "on_open")):
+                    reach = pns.reachable([arms[v]], stop_nodes=[hd])
+                    by_role(prog, c, P + role, [h for s, h in local_callees(prog, pns) if s.bb in reach and s.bb != hd and ("@%s." % v) in render(pns.site_expr(s)) and "::io::Multiplexed::" in h.npath])
+                break
+        first = [h for s, h in sorted(local_callees(prog, pns), key=lambda x: x[0].bb) if h.argc == 1 and "::io::Multiplexed::" in h.npath]
+        by_role(prog, c, P + "guard_open", first[:1])
+    by_role(prog, c, P + "on_error", [b for b in prog.bodies(c) if b.kind != "closure" and "::io::Multiplexed::" in b.npath and b.argc == 2 and [s for s in b.field_write_sites("status") if s.si is not None and "Status::Err" in render(b.site_expr(s))]])
+    prs = _find(prog, c, r"^libp2p_mplex::io::Multiplexed::poll_read_stream$")
+    if prs is not None:
+        by_role(prog, c, P + "can_read", [h for s, h in local_callees(prog, prs) if h.argc == 2 and "::io::Multiplexed::" in h.npath and _is_switch_cond(prs, s)])
+    ss = [b for b in prog.bodies(c) if b.kind != "closure" and "::io::SubstreamState::" in b.npath and b.argc == 1 and not b.npath.startswith("libp2p_mplex::<")]
+    opt = [b for b in ss if any(v == "std::option::Option::None{}" for v in zero_assigns(b).values())]
+    if len(ss) == 2 and len(opt) == 1:
+        rename_fn(prog, c, opt[0].npath, "libp2p_mplex::io::SubstreamState::recv_buf_open")
+        rename_fn(prog, c, [b for b in ss if b is not opt[0]][0].npath, "libp2p_mplex::io::SubstreamState::recv_buf")
+    pws = _find(prog, c, r"^libp2p_mplex::io::Multiplexed::poll_write_stream$")
+    if pws is not None:
+        by_role(prog, c, P + "poll_send_frame", [h for s, h in local_callees(prog, pws) if any(x[0] == "closure" for a in pws.site_expr(s)[2] for x in mir.walk(a))])
+    pos = _find(prog, c, r"^libp2p_mplex::io::Multiplexed::poll_open_stream$")
+    if pos is not None:
+        opens = [render(pos.site_expr(a)) for a in pos.agg_sites(r"codec::Frame$", "Open")]
+        by_role(prog, c, P + "next_outbound_stream_id", [h for s, h in local_callees(prog, pos) if h.argc == 1 and any(render(pos.site_expr(s)) in o for o in opens)])
+    for b in [b for b in prog.bodies(c) if b.kind != "closure" and b.npath.startswith("libp2p_mplex::codec::RemoteStreamId::") and b.argc == 1]:
+        ag = b.agg_sites(r"codec::RemoteStreamId$")
+        if len(ag) == 1:
+            m = re.search(r"role: libp2p_core::Endpoint::(Dialer|Listener)\{\}", render(b.site_expr(ag[0])))
+            if m:
+                rename_fn(prog, c, b.npath, "libp2p_mplex::codec::RemoteStreamId::" + m.group(1).lower())
+    by_role(prog, c, "libp2p_mplex::Substream::new", [b for b in prog.bodies(c) if b.kind != "closure" and b.argc == 2 and b.agg_sites(r"^libp2p_mplex::Substream$")])
